@@ -218,9 +218,16 @@ func macroexpand(ctx context.Context, ast MalType, env EnvType) (MalType, error)
 			return nil, e
 		}
 		fn := mac.(MalFunc)
+		pos := lisperror.GetPosition(ast)
 		ast, e = Apply(ctx, fn, slc[1:])
 		if e != nil {
 			return nil, e
+		}
+		// a form built by the macro has no source position of its own: it stands where
+		// the macro call stood, so that an error raised by it is reported there
+		if lst, ok := ast.(List); ok && lst.Cursor == nil && pos != nil {
+			lst.Cursor = pos
+			ast = lst
 		}
 	}
 	return ast, nil
@@ -586,7 +593,9 @@ func EVAL(ctx context.Context, ast MalType, env EnvType) (res MalType, e error) 
 		default:
 			el, e := eval_ast(ctx, ast, env)
 			if e != nil {
-				return nil, e
+				// an error that has no position yet (raised by a form built by a macro) is
+				// reported at the innermost enclosing call form that has one
+				return nil, lisperror.NewLispError(e, ast)
 			}
 			f := el.(List).Val[0]
 			if Q[MalFunc](f) {
